@@ -910,6 +910,23 @@ def f_tr_card_arity(deck, rng):
     return out
 
 
+def f_tr_card_short(deck, rng):
+    '''TR card with one or two entries (legal MCNP: missing entries are 0; the
+    converter keeps a 10/11-entry list that fails only where it is used).
+    Not a fault of the property: exercised for the correspondence only.'''
+    out = []
+    for k in range(len(deck['trs'])):
+        d = _clone(deck)
+        tr = d['trs'][k]
+        tr['entries'] = tr['entries'][:rng.choice([1, 2])]
+        tr['star'] = False
+        out.append((d, f'tr{tr["id"]} with {len(tr["entries"])} entries'))
+    return out
+
+
+NEUTRAL = {'tr_card_short'}
+
+
 def _array_cells(deck):
     return [k for k, c in enumerate(deck['cells'])
             if re.search(r'fill=-?\d+:', c['opts'])]
@@ -1078,6 +1095,7 @@ FAULTS = {
     'facet_range_trcl': (f_facet_range_trcl, ['trcl', 'facets']),
     'facet_zero_trcl': (f_facet_zero_trcl, ['trcl']),
     'tr_card_arity': (f_tr_card_arity, ['tr']),
+    'tr_card_short': (f_tr_card_short, ['tr']),
     'fill_array_len': (f_fill_array_len, ['lat']),
     'fill_array_plus3': (f_fill_array_plus3, ['lat']),
     'fill_array_surplus_tr': (f_fill_array_surplus_tr, ['lat', 'tr']),
